@@ -344,9 +344,11 @@ theorem eff_stepUplink (E : Spec.Rfc4493.BlockFn) (sys : Sys) (s : UpSt) (fault 
   split
   all_goals (repeat' split)
   all_goals close_eff
-  · rename_i h; exact eff_of_advance h rfl rfl rfl
-  · rename_i h; exact eff_of_advance h rfl rfl rfl
-  · rename_i h; exact eff_of_addInbox h rfl rfl rfl
+  all_goals first
+    | (rename_i h; exact eff_of_advance h rfl rfl rfl)
+    | (rename_i h _; exact eff_of_advance h rfl rfl rfl)
+    | (rename_i h; exact eff_of_addInbox h rfl rfl rfl)
+    | (rename_i h _; exact eff_of_addInbox h rfl rfl rfl)
 
 theorem eff_stepJoin (E : Spec.Rfc4493.BlockFn) (cfg : Config) (sys : Sys) (s : JoinSt) (fault : Bool) :
     Eff sys (stepJoin E cfg sys s fault).1 := by
